@@ -143,3 +143,15 @@ PLANS['C09'] = {
     'run': api_runner({'quick': [('scale', 16, 40, 12), ('scalerbare', 4, 60, 4)],
                        'thorough': [('scale', 200, 40, 16), ('scalerbare', 30, 100, 16), ('certscaled', 100, 3, 8)]}),
 }
+
+PLANS['C05'] = {
+    'level': 'model_checking', 'tv_spec': 'TV_API',
+    'run': api_runner({'quick': [('binv', 12, 10, 16)],
+                       'thorough': [('binv', 150, 12, 16)]}),
+}
+
+PLANS['C03'] = {
+    'level': 'model_checking', 'tv_spec': 'TV_API',
+    'run': api_runner({'quick': [('exact', 16, 3, 12), ('exactbig', 4, 2, 4)],
+                       'thorough': [('exact', 200, 4, 16), ('exactbig', 40, 3, 16)]}),
+}
